@@ -53,6 +53,11 @@ def plan(tier, seed):
     for i in rich[:2]:
         specs[i]["big"] = True
     specs.sort(key=lambda s: (not s.get("bgzf"), not s.get("big")))
+    # one long reference (12 reference segments, 15 bases: ids and offsets cross the 9 -> 10 digit boundary), walks of <= 2 steps
+    from mc.props import c01
+
+    for lm in ("complete", "realistic"):
+        specs.append({"layout": {"ref_lens": list(c01.LONG_REF), "pattern": "one", "scale": 1}, "linkmode": lm, "max_steps": 2})
     return specs
 
 
@@ -69,7 +74,7 @@ def gfa_text(g, gfa_order):
     return "".join(l.line() + "\n" for l in g.links) + "".join(x.line() + "\n" for x in reversed(list(g.segs.values())))
 
 
-def check_index(res, g, L, lm, stable, recs, variant, scratch, tag="x", gfa_order="so", pad=None, keep_gaf=False):
+def check_index(res, g, L, lm, stable, recs, variant, scratch, tag="x", gfa_order="so", pad=None, keep_gaf=False, older_than_index=False):
     gfa_path = os.path.join(scratch, "g.gfa")
     fw.write_text(gfa_path, gfa_text(g, gfa_order))
     unpadded = recs
@@ -79,6 +84,10 @@ def check_index(res, g, L, lm, stable, recs, variant, scratch, tag="x", gfa_orde
     gaf_path = os.path.join(scratch, f"{tag}.gaf" + ("" if variant[0].startswith("plain") else ".gz"))
     if not (keep_gaf and os.path.exists(gaf_path)):
         vi.write_gaf(gaf_path, text, variant)
+        if older_than_index and os.path.exists(gaf_path + ".gvi"):
+            # the file that replaces the indexed one carries an older time stamp than the existing index (mv, cp -p, rsync -t)
+            t = os.path.getmtime(gaf_path + ".gvi") - 3600
+            os.utime(gaf_path, (t, t))
     res.next_call()
     out, ind = vi.run_index(gaf_path, gfa_path)
     res.count("index_runs")
@@ -155,13 +164,17 @@ def run_shard(spec, tier, scratch):
     ou, os_ = record_sets(og, other, 2)
     if os_:
         check_index(fw.ShardResult(), og, other, lm, True, os_[:60], ("plain",), scratch, "prime")
-    urecs, srecs = record_sets(g, L, b["max_steps"])
+    urecs, srecs = record_sets(g, L, spec.get("max_steps") or b["max_steps"])
     res.count("walk_records", len(urecs))
     for stable, recs in ((False, urecs), (True, srecs)):
         if not recs:
             continue
         check_index(res, g, L, lm, stable, recs, ("plain",), scratch, "all")
         check_index(res, g, L, lm, stable, recs[::-1], ("plain",), scratch, "rev", gfa_order="rev")
+        if len(recs) > 1:
+            # the indexed file is replaced by another one (same path, other record order) with an older time stamp, and indexed again
+            check_index(res, g, L, lm, stable, recs[1:] + recs[:1], ("plain",), scratch, "all", older_than_index=True)
+            res.count("reindexed_after_replacement_by_an_older_file")
         check_index(res, g, L, lm, stable, recs, ("pysam",), scratch, "allgz", gfa_order="rev")
         if not stable and L.scale == 1:
             # the very same GAF file (not rewritten) re-indexed against another graph with the same segment names but
